@@ -17,11 +17,23 @@ def witNeDefault (w : List WitStack) : Res Bool := do
   let b ← serWitness []
   pure (a != b)
 
+/-- Does `CTransaction(self.vin, self.vout, self.nLockTime, self.nVersion)` — the stripped copy built
+    inside `GetTxid` — pass its constructors?  They raise `ValueError` (and nothing else):
+    `CTransaction.__init__` tests `0 <= nLockTime <= 0xffffffff`; for every input that is not already
+    an immutable `CTxIn`, `CTxIn.from_txin` rebuilds it through `COutPoint.__init__` (32-byte hash,
+    `0 <= n <= 0xffffffff`) and `CTxIn.__init__` (`0 <= nSequence <= 0xffffffff`).  (An immutable
+    input was validated when it was built, so the test is vacuous for it; outputs are not validated.)
+    Same predicate as `Model.Merkle.ctorValid` (C15) and `Spec.ValueSem.validTx` (C09). -/
+def ctorValid (t : Tx) : Bool :=
+  decide (t.nLockTime ≤ 0xffffffff) &&
+    t.vin.all (fun i => (i.prevout.hash.length == 32 && decide (i.prevout.n ≤ 0xffffffff)) &&
+      decide (i.nSequence ≤ 0xffffffff))
+
 /-- `CTransaction.GetTxid`.  In the first branch the stripped transaction is rebuilt through the
-    `CTransaction` constructor, whose `nLockTime` range test raises `ValueError`. -/
+    validating constructors (`ctorValid`), before anything is serialised. -/
 def getTxidWith (H : Bytes → Bytes) (t : Tx) : Res Bytes := do
   if (← witNeDefault t.wit) then
-    if t.nLockTime > 0xffffffff then throw .valueerr
+    if !ctorValid t then throw .valueerr
     let s ← serTx { t with wit := [] }
     pure (H s)
   else
@@ -130,12 +142,34 @@ structure PyObj where
   cls : Cls
   val : Obj
 
-/-- `Serializable.__eq__` between two objects of the same class pair (the `isinstance` test passes
-    in either direction because the mutable class derives from the immutable one) -/
-def objEq (a b : PyObj) : Res Bool := do
-  let x ← a.val.ser
-  let y ← b.val.ser
-  pure (x == y)
+/-- the class families related by `isinstance`: a mutable class derives from its immutable twin, and
+    `CBlock` derives from `CBlockHeader`; no other two serialisable classes are related -/
+inductive Family
+  | outPoint | txIn | txOut | scriptWit | inWit | wit | tx | header
+deriving DecidableEq, Repr
+
+def Obj.family : Obj → Family
+  | .outPoint _ => .outPoint
+  | .txIn _ => .txIn
+  | .txOut _ => .txOut
+  | .scriptWit _ => .scriptWit
+  | .inWit _ => .inWit
+  | .wit _ => .wit
+  | .tx _ => .tx
+  | .header _ => .header
+  | .block _ => .header
+
+/-- `a == b` with `Serializable.__eq__`:
+    `if not isinstance(other, self.__class__) and not isinstance(self, other.__class__): return NotImplemented`
+    — for classes of different families both `a.__eq__(b)` and the reflected `b.__eq__(a)` return
+    `NotImplemented`, so Python falls back to identity and answers `False` without serialising
+    anything.  Within a family (mutable/immutable twins, header/block) the serialisations are compared. -/
+def objEq (a b : PyObj) : Res Bool :=
+  if a.val.family ≠ b.val.family then pure false
+  else do
+    let x ← a.val.ser
+    let y ← b.val.ser
+    pure (x == y)
 
 /-- `Serializable.__hash__` / `ImmutableSerializable.__hash__`: `hash(self.serialize())` -/
 def objPyHashWith (pyHash : Bytes → Int) (a : PyObj) : Res Int := do
